@@ -20,7 +20,7 @@ pub struct Transaction {
 
 impl Transaction {
     pub fn from(header: TxnHeader, posts: Posts) -> Result<Transaction, tackler::Error> {
-        let txn_sum = posting::txn_sum(&posts);
+        let txn_sum = posting::txn_sum(&posts)?;
         if !txn_sum.is_zero() {
             let msg = format!("TXN postings do not zero: {txn_sum}");
             return Err(msg.into());
